@@ -28,8 +28,11 @@ type C12Boot struct {
 type C12Payload struct {
 	// PreRead, when set, is an INI text read before the first boot's stores:
 	// the "load config, change a setting, save config" lifecycle.
-	PreRead BStr      `json:"pre_read,omitempty"`
-	Boots   []C12Boot `json:"boots"`
+	PreRead BStr `json:"pre_read,omitempty"`
+	// NoFirstParse: the program assigns its fields and saves the configuration
+	// without ever having parsed a command line.
+	NoFirstParse bool      `json:"no_first_parse,omitempty"`
+	Boots        []C12Boot `json:"boots"`
 }
 
 type propC12 struct{}
@@ -116,6 +119,7 @@ func (propC12) Gen(r *Rng, idx int, tier string) *Scenario {
 		}
 		p.PreRead = BStr(b.String())
 	}
+	p.NoFirstParse = p.PreRead == "" && r.Fork("nofirstparse").Chance(1, 6)
 	nb := 1
 	br := r.Fork("boots")
 	if br.Chance(1, 3) {
@@ -186,7 +190,9 @@ func (propC12) Judge(sc *Scenario) *Verdict {
 	if p.PreRead != "" {
 		s2.Ops = append(s2.Ops, Op{Kind: "iniread", Data: p.PreRead})
 	}
-	s2.Ops = append(s2.Ops, Op{Kind: "parse"})
+	if !p.NoFirstParse {
+		s2.Ops = append(s2.Ops, Op{Kind: "parse"})
+	}
 	for i, b := range p.Boots {
 		s2.Ops = append(s2.Ops, b.Stores...)
 		file := ""
@@ -251,7 +257,12 @@ func (propC12) Judge(sc *Scenario) *Verdict {
 	classes := map[string]bool{}
 	for bi, m := range marks {
 		wr, rd, ps := o.Ops[m.write], o.Ops[m.read], o.Ops[m.last]
-		written := valuesMap(wr.Values) // values at the moment of writing
+		written := valuesMap(wr.Values)
+		if m.write > 0 && !o.Ops[m.write-1].Skipped && o.Ops[m.write-1].Op != "reboot" && len(o.Ops[m.write-1].Values) > 0 {
+			// the values the program held when it asked for them to be written (writing
+			// must not change them either)
+			written = valuesMap(o.Ops[m.write-1].Values)
+		}
 		text := string(wr.Out)
 		if s2.Ops[m.write].File != "" {
 			text = string(o.Files[s2.Ops[m.write].File])
